@@ -412,6 +412,15 @@ fn worker(family: &str, lo: u64, hi: u64, progress: &str, quick: bool) -> ! {
             let mut w = WAcc::default();
             for idx in lo..hi {
                 let _ = pf.write_at(&idx.to_le_bytes(), 0);
+                // self-test hooks of the attribution machinery (never set by ./check)
+                if selftest("C09_SELFTEST_ABORT_AT") == Some(idx) {
+                    std::process::abort();
+                }
+                if selftest("C09_SELFTEST_HANG_AT") == Some(idx) {
+                    loop {
+                        std::thread::sleep(Duration::from_secs(3600));
+                    }
+                }
                 let (mode, body) = fams.program(&family, idx);
                 let v = run_case(mode, &body);
                 w.evals += 1;
@@ -449,6 +458,9 @@ fn worker(family: &str, lo: u64, hi: u64, progress: &str, quick: bool) -> ! {
         .expect("spawn");
     let ok = h.join().is_ok();
     std::process::exit(if ok { 0 } else { 3 })
+}
+fn selftest(var: &str) -> Option<u64> {
+    std::env::var(var).ok().and_then(|s| s.parse().ok())
 }
 fn obs_site(obs: &str) -> String {
     // "panic at <site>: msg [source line: ...]" -> "<site> [source line]"
